@@ -112,10 +112,23 @@ def run(out, tier, rng, work):
     # address with NAMEs whose numeric order and byte-wise (little-endian) order disagree; the lower 64-bit value must keep it
     import scen, p_c04, gen_ca, json as _json
     worst = {}
-    for k in range(40 if tier == 'quick' else 600):
+    FIELDS = [(0, 21), (21, 11), (32, 3), (35, 5), (40, 8), (49, 7), (56, 4), (60, 3), (63, 1)]     # J1939-81: (lowest bit, width)
+    PAIRS = [(i, j) for i in range(len(FIELDS)) for j in range(i + 1, len(FIELDS))]
+    for k in range(110 if tier == 'quick' else 900):
         a = rng.getrandbits(64) & ~(1 << 48)
         b = rng.getrandbits(64) & ~(1 << 48)
-        if k % 2 == 0:
+        if k % 3 == 2:
+            # the two NAMEs differ in exactly two fields, in opposite directions: the more significant field decides
+            # (every pair of fields in turn — a comparison that visits the fields in any other order gets one of them wrong)
+            (lo_bit, lo_w), (hi_bit, hi_w) = FIELDS[PAIRS[(k // 3) % len(PAIRS)][0]], FIELDS[PAIRS[(k // 3) % len(PAIRS)][1]]
+            lo_a = rng.randrange(1, 1 << lo_w) if lo_w > 1 else 1
+            lo_b = rng.randrange(0, lo_a)
+            hi_b = rng.randrange(1, 1 << hi_w) if hi_w > 1 else 1
+            hi_a = rng.randrange(0, hi_b)
+            base = a & ~(((1 << lo_w) - 1) << lo_bit) & ~(((1 << hi_w) - 1) << hi_bit)
+            a = base | (lo_a << lo_bit) | (hi_a << hi_bit)
+            b = base | (lo_b << lo_bit) | (hi_b << hi_bit)
+        elif k % 3 == 0:
             # numeric order decided by a high byte, byte-wise order by the lowest byte (opposite)
             hi, lo = rng.randrange(1, 255), rng.randrange(1, 255)
             a = (a & ~(0xFF << 56) & ~0xFF) | (hi << 56) | (lo + 1 if lo < 255 else lo)
